@@ -13,7 +13,7 @@ from vmc.engine import guarded
 
 ID = 'C10'
 BASE_ALPHA = space.alphabet('NOT', 'AND', 'GT', 'XOR')
-OTHERS = ('O1', 'O2', 'O3', 'O4', 'O5', 'O6', 'O7', 'O8', 'O9')
+OTHERS = ('O1', 'O2', 'O3', 'O4', 'O5', 'O6', 'O7', 'O8', 'O9', 'O10')
 
 
 class Reject(Exception):
@@ -116,13 +116,16 @@ def calls_for(base, oname, level):
     ogates = list(oth.gates)
     oin = list(oth.inputs)
     namings = [('', True), ('B', True), ('B', False)] if level == 'full' else [('B', True)]
+    heavy = oname == 'O10'  # five nodes: one naming option, at most two right connectors
+    if heavy:
+        namings = [('B', True)]
     out = []
     for name, pref in namings:
         for r in range(0, len(oin) + 1):
             for oc in itertools.permutations(oin, r):
                 for tc in itertools.product(labs, repeat=r):
                     out.append(['connect_circuit', oname, list(tc), list(oc), False, name, pref])
-        for r in range(1, min(len(ins), 3) + 1):
+        for r in range(1, min(len(ins), 2 if heavy else 3) + 1):
             for tc in itertools.permutations(ins, r):
                 if r == 3 and list(tc) != sorted(tc):
                     continue  # three connectors: one order of the base inputs, every tuple of attached gates
@@ -353,7 +356,7 @@ def _rename_block(op, name):
 
 
 def VARIANT_PRED(t, v):
-    return t['n'] + t['k'] <= 1 or (t['n'] + t['k'] == 2 and t.get('other') in ('O2', 'O4'))
+    return t['n'] + t['k'] <= 1 or (t['n'] + t['k'] == 2 and t.get('other') == 'O4' and not t.get('depth2'))
 
 
 def plan(tier):
@@ -378,6 +381,8 @@ def plan(tier):
     out = []
     for tk in t:
         for o in OTHERS:
+            if o == 'O10' and tk['n'] + tk['k'] > 2 and tier == 'quick':
+                continue
             d = dict(tk)
             d['other'] = o
             out.append(d)
@@ -386,7 +391,7 @@ def plan(tier):
 
 def describe(tier):
     return {
-        'rule': 'base circuit of F(n,k,{NOT,AND,GT,XOR}) x output policy x attached circuit (9: NOT, AND, 1-in/2-out with an '
+        'rule': 'base circuit of F(n,k,{NOT,AND,GT,XOR}) x output policy x attached circuit (10: gates reading one operand twice / twice among three, NOT, AND, 1-in/2-out with an '
         'output that is its input, block + dead gate, buffer, GT, two outputs, no inputs (constant connectors), labels that already carry a block prefix) x every call: connect_circuit left '
         '(every duplicate-free tuple of attached inputs incl. partial x every tuple of base gates incl. internal/repeated), '
         'right (every duplicate-free tuple of <=3 base inputs x every tuple of attached gates), connect_left/right/inputs, '
